@@ -219,11 +219,12 @@ class Optimizer:
             )
         elif food_type == "seaweed":
             seaweed_kcals = self.consts_for_optimizer["SEAWEED_KCALS"]
+            # seaweed is pinned from below only: what has grown on the farm has to be harvested
+            # (equality ledger, density ceiling, no disposal) and feed/biofuel can take only a capped
+            # share of it, so an upper pin on human consumption leaves the biomass nowhere to go and
+            # makes this round infeasible (SLV, CMR, ECU under several shutoff options)
             condition["Seaweed_Min_Requirement"] = (
                 variables["seaweed_to_humans"][month] * seaweed_kcals >= lower_bound
-            )
-            condition["Seaweed_Max_Requirement"] = (
-                variables["seaweed_to_humans"][month] * seaweed_kcals <= upper_bound
             )
         else:
             print("ERROR: added a condition for a food type that wasn't defined")
